@@ -122,6 +122,10 @@ func (s *Session) Reset() {
 	if s.delivery != nil {
 		s.abort(s.msgCtx)
 	}
+	// A deferred MAIL FROM failure is repeated for the RCPT commands of the
+	// transaction it belongs to, not for the transactions that follow (it
+	// was formatted for the failed one: message ID, SMTPUTF8).
+	s.deliveryErr = nil
 	s.endp.Log.DebugMsg("reset")
 }
 
@@ -330,6 +334,7 @@ func (s *Session) Mail(from string, opts *smtp.MailOptions) error {
 	// Keep the MAIL FROM argument for deferred startDelivery.
 	s.mailFrom = from
 	s.opts = *opts
+	s.deliveryErr = nil
 
 	return nil
 }
